@@ -210,11 +210,13 @@ impl<'a> Outbound<'a> {
         })
     }
 
-    pub(super) fn ack_packet(&mut self, packet_id: u16) -> bool {
+    /// Remove the retained packet with this identifier, provided its fixed header byte is of the
+    /// kind the acknowledgement belongs to.
+    pub(super) fn ack_packet(&mut self, packet_id: u16, acknowledges: impl Fn(u8) -> bool) -> bool {
         let Some(position) = self
             .retained
             .iter()
-            .position(|entry| entry.packet_id == packet_id)
+            .position(|entry| entry.packet_id == packet_id && acknowledges(self.buf[entry.offset]))
         else {
             return false;
         };
